@@ -85,7 +85,7 @@ def run(prog, R):
             sinks = forward_sinks(body, t.dest.local, follow_refs=True, through=PROPAGATORS)
             ret = any(k == 'ret' and not via for (k, n, i, via) in sinks)
             drops = [n for (k, n, i, via) in sinks if k == 'drop' and not via]
-            swallow = [n for (k, n, i, via) in sinks if k == 'call' and not via and n.callee and n.callee.path in SWALLOW]
+            swallow = [n for (k, n, i, via) in sinks if k == 'call' and not via and n.callee and n.callee.path in SWALLOW and not is_lossless_map_err(n)]
             ok = ret and not drops and not swallow
             why = []
             if not ret:
@@ -177,17 +177,18 @@ def fill_guard_rule(prog, R, f):
     closed = {}
     over = []
     for l in carried:
-        r = recurrence(back, l)
         e = ent.env.get(l, Aff.sym(('H', l)))
         # the arm that reads nothing leaves the counter alone: mixed same/inc is fine
         kinds = set()
         for p in back:
             v = p.env.get(l, Aff.sym(('H', l)))
             kinds.add('same' if v == Aff.sym(('H', l)) else 'inc' if nsym is not None and v == Aff.sym(('H', l)) + nsym else 'latest' if nsym is not None and v == nsym else 'other')
-        if kinds <= {'same', 'inc', 'latest'} and isinstance(e, Aff) and e.is_const() and e.c <= 0:
-            closed[l] = S      # upper bound: at most the bytes read so far
-        elif kinds == {'same'}:
+        if kinds == {'same'}:
             closed[l] = e
+        elif kinds <= {'same', 'inc'} and isinstance(e, Aff):
+            closed[l] = e + S          # entry value + the bytes read so far (a counter of bytes read, or of the fill level)
+        elif kinds <= {'same', 'inc', 'latest'} and isinstance(e, Aff) and e.is_const() and e.c <= 0:
+            closed[l] = S              # upper bound: at most the bytes read so far
         else:
             closed[l] = None
             over.append(f.names.get(l, '_%d' % l))
@@ -222,9 +223,10 @@ def fill_guard_rule(prog, R, f):
                         return closed[sym[1]]
                     return ent.env.get(sym[1])
                 return None
-            Xc = X.subst(sub) if all(closed.get(k[1], 0) is not None for k in X.t if isinstance(k, tuple) and k[0] == 'H') else None
+            used = [k[1] for k in X.t if isinstance(k, tuple) and k[0] == 'H']
+            Xc = X.subst(sub) if all(closed.get(k, 0) is not None for k in used) else None
             if Xc is None:
-                detail = 'the compared quantity depends on a counter whose recurrence is not "+= bytes read": %s' % over
+                detail = 'the compared quantity depends on a counter whose recurrence is not "+= bytes read": %s' % [f.names.get(k, '_%d' % k) for k in used if closed.get(k, 0) is None]
                 continue
             coef_ok = all(k in (E.single(), S.single()) and 0 <= v <= 1 for k, v in Xc.t.items())
             ok = coef_ok and Xc.c <= m
@@ -299,97 +301,95 @@ def fill_rules(prog, R, f):
                     any(p['k'] == 'downcast' and p['variant'] == variant for p in t.discr.place.proj):
                 out.add(b)
         return out
-    # exits of the loop
-    exits = [(a, s) for a in L for s in cfg.succ[a] if s not in L]
-    kinds = []
-    # discriminant switch of the result
-    dsw = None
-    for b in L:
-        t = f.blocks[b].term
-        if t.k == 'switch':
-            rs = roots_of(f, t.discr, du)
-            if any(r[0] == 'discr' and r[1].rv.place.local == res and not r[1].rv.place.proj for r in rs) and b != h:
-                if dsw is None or cfg.dominates(b, dsw[0]):
-                    dsw = (b, t)
-    if dsw is None:
-        R.add('FILL-2', f, 'match-on-result', False, site(f, rt.line), 'cannot find the match on the read result')
-        return
-    db, dt = dsw
-    ok_arm = [tgt for v, tgt in dt.targets if v == 0]
-    err_arm = [tgt for v, tgt in dt.targets if v == 1]
-    if len(ok_arm) != 1 or len(err_arm) != 1:
-        R.add('FILL-2', f, 'match-on-result', False, site(f, dt.line), 'unexpected shape of the match on the read result')
-        return
-    ok_arm, err_arm = ok_arm[0], err_arm[0]
-    # region reachable from each arm without passing the header
-    ok_region = cfg.reach_from(ok_arm, removed={h}, include_start=True)
-    err_region = cfg.reach_from(err_arm, removed={h}, include_start=True)
-    # zero test on the Ok payload
-    zsw = None
-    t = f.blocks[ok_arm].term
-    if t.k == 'switch' and not t.discr.is_const and t.discr.place.local == res:
-        zsw = (ok_arm, t)
-    zero_arm = nonzero_arm = None
-    if zsw:
-        za = [tgt for v, tgt in zsw[1].targets if v == 0]
-        zero_arm = za[0] if za else None
-        nonzero_arm = zsw[1].otherwise
-    exits = [(a, s) for (a, s) in exits if f.blocks[s].term.k != 'unreachable' or f.blocks[s].stmts]
-    zero_region = cfg.reach_from(zero_arm, removed={h}, include_start=True) if zero_arm is not None else set()
-    nonzero_region = cfg.reach_from(nonzero_arm, removed={h}, include_start=True) if nonzero_arm is not None else set()
-    for (a, s) in exits:
-        line = f.blocks[a].term.line
-        if zsw is not None and ((a == zsw[0] and s == zero_arm) or (a in zero_region and a not in nonzero_region and a not in err_region)):
-            R.add('FILL-2', f, 'exit:read-zero', True, site(f, line), 'left on Ok(0)')
-            kinds.append('zero')
-        elif (a in err_region or a == db and s == err_arm) and a not in ok_region:
-            # must be a return of Err(received error)
-            retv = None
-            for bb in [a, s] + sorted(cfg.reach_from(s, include_start=True)):
-                for s_ in f.blocks[bb].stmts:
-                    if s_.k == 'assign' and s_.place.local == 0 and s_.rv.k == 'agg' and s_.rv.j.get('variant') == 'Err':
-                        retv = s_
-            # every path from this exit to a return must assign _0 = Err(..) (must-pass-through)
-            err_blocks = set(bb for bb in cfg.reachable for s_ in f.blocks[bb].stmts
-                             if s_.k == 'assign' and s_.place.local == 0 and s_.rv.k == 'agg' and s_.rv.j.get('variant') == 'Err')
-            escape = [bb for bb in cfg.reach_from(s, removed=err_blocks, include_start=True) if f.blocks[bb].term.k == 'return']
-            R.add('FILL-2', f, 'exit:error-return', retv is not None and not escape, site(f, line),
-                  'Err arm leaves the loop by returning Err on every path: %s' % (not escape))
-            if retv is not None:
-                rs = roots_of(f, retv.rv.ops[0], du)
-                ok = len(rs) == 1 and rs[0][0] == 'call' and rs[0][1] is rt and [x[2] for x in rs[0][-1]] == ['Err']
-                R.add('FILL-4', f, 'returned-error-is-received-error', ok, site(f, retv.line),
-                      'returned Err payload <- %s' % [(r[0], [x[2] for x in r[-1]]) for r in rs])
-            kinds.append('err')
-        elif a in ok_region or a in err_region:
-            R.add('FILL-2', f, 'exit:other@%s' % ('ok-arm' if a in ok_region else 'err-arm'),
-                  False, site(f, line), 'unexpected way out of the refill loop (a refill must only stop when the buffer is full, the source is exhausted, or on a non-Interrupted error)')
-            kinds.append('other')
-        elif cfg.dominates(a, rb):
-            # loop condition: must depend on buffer().len()/capacity()
-            t = f.blocks[a].term
-            deps = data_deps(f, t.discr, du) if t.k == 'switch' else []
-            calls = set(r[1].callee.path for r in deps if r[0] == 'call' and r[1].callee)
-            # what is compared with the capacity is FILL-7's business (a guard that ignores the initial fill only
-            # costs one more read on a full buffer, which returns 0: equivalent mutant of the survey)
-            ok = 'buffer_redux::BufReader::capacity' in calls
-            R.add('FILL-2', f, 'exit:loop-condition', ok, site(f, line), 'loop condition depends on %s (that it implies a full buffer is FILL-7)' % sorted(calls))
-            kinds.append('cond')
+    # ---- FILL-2 / FILL-4 / FILL-5, path-based (one symbolic iteration of the loop; any loop shape: while / loop+break / match arms)
+    from scev import Sym, Aff, Agg, Path, linear_preds, preds_hold
+    ev = Sym(prog, f)
+    paths = ev.run(h, stops={h})
+    res_sym = ('call', rt.callee.path, rb)
+    okn = Aff.sym(('f', res_sym, 'Ok', '0'))
+
+    def variant_of(p):
+        for (x, d, taken) in p.conds:
+            s1 = d.single() if isinstance(d, Aff) else None
+            if s1 == ('discr', res_sym):
+                return {0: 'Ok', 1: 'Err'}.get(taken)
+            if isinstance(s1, tuple) and s1[0] == 'discr' and isinstance(s1[1], tuple) and s1[1][0] == 'try' and s1[1][1] == res_sym:
+                return {0: 'Ok', 1: 'Err'}.get(taken)
+        return None
+
+    def zeroness(p):
+        """'zero' / 'nonzero' / None from the conditions on the number of bytes read"""
+        out = None
+        for (x, d, taken) in p.conds:
+            if d == okn:
+                tg = [v for v, _ in f.blocks[x].term.targets] if f.blocks[x].term.k == 'switch' else []
+                if taken == 0:
+                    out = 'zero'
+                elif taken is None and 0 in tg:
+                    out = 'nonzero'
+        preds = linear_preds(p.conds, okn)
+        if preds:
+            h0, h1, h2 = preds_hold(preds, 0), preds_hold(preds, 1), preds_hold(preds, 1 << 40)
+            if h0 and not h1 and not h2:
+                out = 'zero'
+            elif not h0 and h1 and h2:
+                out = 'nonzero'
+            elif out is None:
+                out = 'threshold'     # a test against another constant (FILL-6 reports it where the count is used by the readers)
+        return out
+    seen_zero_exit = False
+    n_ok = n_bad_ok = 0
+    for p in paths:
+        did_read = any(t is rt for (_, t, _) in p.effects)
+        exits = p.end[0] == 'return'
+        back = p.end == ('stop', h)
+        line = f.blocks[p.blocks[-1]].term.line or rt.line
+        r0 = p.env.get(0)
+        if not did_read:
+            if exits:
+                capd = any(isinstance(sy, tuple) and sy[0] == 'call' and 'capacity' in str(sy[1]) for (_, d, _) in p.conds if isinstance(d, Aff) for sy in d.syms())
+                R.add('FILL-2', f, 'exit:loop-condition', capd, site(f, line), 'left without reading under a condition that %s the capacity (that it implies a full buffer is FILL-7)' % ('compares with' if capd else 'does NOT mention'))
+            continue
+        var = variant_of(p)
+        if var == 'Ok':
+            z = zeroness(p)
+            if exits and z == 'zero':
+                seen_zero_exit = True
+                R.add('FILL-2', f, 'exit:read-zero', True, site(f, line), 'left on Ok(0)')
+            elif exits:
+                n_bad_ok += 1
+                R.add('FILL-2', f, 'exit:other@ok-arm', False, site(f, line),
+                      'the refill stops although bytes were read (%s): a refill must only stop when the buffer is full, the source is exhausted, or on a non-Interrupted error' % (z or 'no test of the count'))
+            elif back and z == 'zero':
+                R.add('FILL-2', f, 'zero-read-continues', False, site(f, line), 'a read of 0 bytes continues the loop: the refill never ends at the end of the input')
+            elif back:
+                n_ok += 1
+        elif var == 'Err':
+            if exits:
+                err = isinstance(r0, Agg) and r0.variant == 'Err'
+                R.add('FILL-2', f, 'exit:error-return', err, site(f, line), 'Err arm leaves the loop by returning Err: %s' % err)
+                if err:
+                    pay = r0.fields[0] if r0.fields else None
+                    okp = pay == Aff.sym(('f', res_sym, 'Err', '0'))
+                    R.add('FILL-4', f, 'returned-error-is-received-error', okp, site(f, line), 'returned Err payload <- %r' % (pay,))
+                elif isinstance(r0, Aff) and isinstance(r0.single(), tuple) and 'from_residual' in str(r0.single()):
+                    R.add('FILL-4', f, 'returned-error-is-received-error', True, site(f, line), 'returned through `?`')
         else:
-            R.add('FILL-2', f, 'exit:other@loop', False, site(f, line), 'unexpected way out of the refill loop')
-            kinds.append('other')
-    for want in ('cond', 'zero', 'err'):
-        if want not in kinds:
-            R.add('FILL-2', f, 'exit-missing:%s' % want, False, site(f, rt.line), 'the refill loop has no %s exit' % want)
-    # FILL-5
-    if nonzero_arm is None:
-        R.add('FILL-5', f, 'nonzero-continues', False, site(f, rt.line), 'no test of the number of bytes read')
-    else:
-        reach = cfg.reach_from(nonzero_arm, removed={h}, include_start=True)
-        leaves = [b for b in reach if b not in L]
-        R.add('FILL-5', f, 'nonzero-continues', not leaves, site(f, f.blocks[nonzero_arm].term.line),
-              'blocks outside the loop reachable from the Ok(n>0) arm before the loop head: %s' % sorted(leaves))
+            if exits and not (isinstance(r0, Agg) and r0.variant == 'Err'):
+                R.undecided('FILL-2', f, 'exit:unclassified', site(f, line), 'an exit after the read whose arm (Ok / Err) is not visible to this rule')
+    if not seen_zero_exit:
+        R.add('FILL-2', f, 'exit-missing:zero', False, site(f, rt.line), 'no way out of the refill loop on a read of 0 bytes: the refill cannot end at the end of the input')
+    R.add('FILL-5', f, 'nonzero-continues', n_bad_ok == 0 and n_ok > 0, site(f, rt.line),
+          'iterations with Ok(n>0) that continue the loop: %d; that leave it: %d' % (n_ok, n_bad_ok), undecided=(n_bad_ok == 0 and n_ok == 0))
     # FILL-3
+    erd = payload_reads('Err')
+    if not erd:
+        R.undecided('FILL-3', f, 'interrupted-guard', site(f, rt.line), 'the Err arm of the read is not visible to this rule (e.g. `?`)')
+        R.floor('FILL-3', 0)
+        return
+    err_arm = [x for x in erd if all(cfg.dominates(x, y) for y in erd)]
+    err_arm = err_arm[0] if err_arm else sorted(erd)[0]
+    err_region = cfg.reach_from(err_arm, removed={h}, include_start=True) & set(L)
     retry = None
     for b in err_region:
         t = f.blocks[b].term
